@@ -20,7 +20,7 @@ def layout (s : SgLine) : Str × Nat × Nat × Bool := (s.name, s.start, s.size,
 theorem layout_reread (s : SgLine) : layout (rereadSg s) = layout s := rfl
 
 theorem dbc_file_keeps_frames_and_layout (es : List WEcu) (hes : wfEcus es = true) (ts : List WTable) (hts : wfTables ts = true)
-    (ds : List DefLine) (hds : wfDefs ds = true) (dds : List DefDefLine) (hdds : ∀ d ∈ dds, wfDefDef d = true)
+    (ds : List DefLine) (hds : wfDefs ds = true) (dds : List DefDefLine) (hdds : wfDefaults ds dds = true)
     (ga : List (Str × Str)) (hga : wfAttrs (expectDefs ds dds) .global .global ga = true)
     (hea : ∀ e ∈ es, wfAttrs (expectDefs ds dds) .ecu (.ecu e.name) e.attrs = true)
     (ps : List (WFrame × (Nat × Bool))) (hwf : ∀ p ∈ ps, p.1.wf p.2 = true) (hdist : ps.Pairwise fun p q => p.2 ≠ q.2)
@@ -40,7 +40,7 @@ def sameMeaning (r : RSig) (s : WSig) : Prop :=
   r.sg.tag = s.sg.tag ∧ r.values = s.values ∧ r.muxer = s.muxer ∧ r.ranges = s.ranges
 
 theorem dbc_file_keeps_interpretation (es : List WEcu) (hes : wfEcus es = true) (ts : List WTable) (hts : wfTables ts = true)
-    (ds : List DefLine) (hds : wfDefs ds = true) (dds : List DefDefLine) (hdds : ∀ d ∈ dds, wfDefDef d = true)
+    (ds : List DefLine) (hds : wfDefs ds = true) (dds : List DefDefLine) (hdds : wfDefaults ds dds = true)
     (ga : List (Str × Str)) (hga : wfAttrs (expectDefs ds dds) .global .global ga = true)
     (hea : ∀ e ∈ es, wfAttrs (expectDefs ds dds) .ecu (.ecu e.name) e.attrs = true)
     (ps : List (WFrame × (Nat × Bool))) (hwf : ∀ p ∈ ps, p.1.wf p.2 = true) (hdist : ps.Pairwise fun p q => p.2 ≠ q.2)
